@@ -28,6 +28,10 @@
 (*   close_orderly  handshake completes, streams are served, then the      *)
 (*                  server ends the connection with a WebSocket Close      *)
 (*   close_abrupt   ... then the server drops the TCP connection           *)
+(*   drop_unserved  handshake completes, no frame is ever answered, and    *)
+(*                  after d ms the server drops the TCP connection: a      *)
+(*                  stream request that is IN FLIGHT when the connection   *)
+(*                  is lost; retryable, request kept                       *)
 (*   healthy        handshake completes and the connection stays (terminal)*)
 (*   down           the server is gone for good: every further attempt is  *)
 (*                  refused by the operating system (terminal; attempts    *)
@@ -56,7 +60,7 @@ DelayOf(j, m) ==
   ELSE LET d == DelayOf(j - 1, m) IN IF d >= m THEN m ELSE Min(2 * d, m)
 
 Refusals  == {"refuse", "rst", "stall", "down"}      \* the attempt fails, retryable
-Connects  == {"mute", "close_orderly", "close_abrupt", "healthy"}   \* the handshake completes
+Connects  == {"mute", "close_orderly", "close_abrupt", "drop_unserved", "healthy"}   \* the handshake completes
 Serving   == {"close_orderly", "close_abrupt", "healthy"}           \* ... and stream requests are answered
 Terminal  == {"healthy", "down", "bad"}
 Behs      == Refusals \cup Connects \cup {"bad"}
@@ -132,7 +136,7 @@ Fatal ==
 
 (* the established connection is lost (server closes; or a stream request timed out on a mute server) *)
 Lose ==
-  /\ phase = "up" /\ cur.beh \in {"mute", "close_orderly", "close_abrupt"}
+  /\ phase = "up" /\ cur.beh \in {"mute", "close_orderly", "close_abrupt", "drop_unserved"}
   /\ cur.beh = "mute" => pending # {}
   /\ IF OrderlyMode = "pinned" /\ cur.beh = "close_orderly"
      THEN phase' = "zombie" /\ UNCHANGED <<k, delay, acc, result, hist>>
